@@ -324,6 +324,45 @@ def emit() -> str:
         f = find_method(class_def(parse(rel), cls), fn)
         consumed += [(f"{cls}.{fn}", x.replace('"', "'")) for x in _consumes_argument(f)]
     sw_applied, sw_other = _software_inits()
+    # OfficeLANAdder: constants, guards, name / address templates and the wiring calls, in source order
+    cr = parse("simulator/network/creation.py")
+    adder = class_def(cr, "OfficeLANAdder")
+    add = find_method(adder, "add_nodes_to_net")
+    eni = [n.value.value for n in ast.walk(add) if isinstance(n, ast.Assign) and ast.unparse(n.targets[0]) == "effective_network_interface"
+           and isinstance(n.value, ast.Constant)]
+    if len(eni) != 1:
+        raise ValueError("effective_network_interface literal not found in OfficeLANAdder.add_nodes_to_net")
+    sw_ports = [v.value for n in ast.walk(add) if isinstance(n, ast.Dict) for k, v in zip(n.keys, n.values)
+                if isinstance(k, ast.Constant) and k.value == "num_ports" and isinstance(v, ast.Constant)]
+    nosr = find_function(cr, "num_of_switches_required")
+    max_if = [d.value for a, d in zip(nosr.args.args[-len(nosr.args.defaults):], nosr.args.defaults) if a.arg == "max_network_interface"]
+    nosr_src = ast.unparse(nosr)
+    if "effective_network_interface = max_network_interface - 1" not in nosr_src or \
+            "full_switches = num_nodes // effective_network_interface" not in nosr_src or \
+            "extra_pcs = num_nodes % effective_network_interface" not in nosr_src:
+        raise ValueError("num_of_switches_required: shape not recognised")
+    count_formula = ast.unparse([n for n in ast.walk(nosr) if isinstance(n, ast.Return)][-1].value)
+    schema = class_def(adder, "ConfigSchema")
+    val = find_method(schema, "check_ip_range")
+    ip_test = [ast.unparse(n.test) for n in ast.walk(val) if isinstance(n, ast.If)]
+    ip_limit = [c.value for n in ast.walk(val) if isinstance(n, ast.If) for c in ast.walk(n.test) if isinstance(c, ast.Constant)]
+    start_guard = [ast.unparse(n.test) for n in add.body if isinstance(n, ast.If) and "pcs_ip_block_start" in ast.unparse(n.test)]
+    loop = [n for n in add.body if isinstance(n, ast.For)]
+    if len(loop) != 1 or ast.unparse(loop[0].iter) != "range(1, config.num_pcs + 1)":
+        raise ValueError("OfficeLANAdder: the computer loop is not `for i in range(1, config.num_pcs + 1)`")
+    new_sw_test = [ast.unparse(n.test) for n in loop[0].body if isinstance(n, ast.If)]
+    defaults = {ast.unparse(st.target): ast.unparse(st.value) for st in schema.body if isinstance(st, ast.AnnAssign) and st.value is not None}
+    templates = [ast.unparse(n)[2:-1] for n in ast.walk(add) if isinstance(n, ast.JoinedStr)]
+    templates = [t for t in templates if not t.startswith("pcs_ip_block_start must")]
+    connects = [", ".join(ast.unparse(a) for a in n.args) + "".join(", " + k.arg + "=" + ast.unparse(k.value) for k in n.keywords)
+                for n in ast.walk(add) if isinstance(n, ast.Call) and ast.unparse(n.func) == "network.connect"]
+    # ast.walk is breadth-first: bring the calls into source order
+    order = sorted(((n.lineno, n.col_offset), i) for i, n in enumerate(
+        [n for n in ast.walk(add) if isinstance(n, ast.Call) and ast.unparse(n.func) == "network.connect"]))
+    connects = [connects[i] for _, i in order]
+    torder = sorted(((n.lineno, n.col_offset), i) for i, n in enumerate(
+        [n for n in ast.walk(add) if isinstance(n, ast.JoinedStr) and not ast.unparse(n)[2:-1].startswith("pcs_ip_block_start must")]))
+    templates = [templates[i] for _, i in torder]
     lines = ["namespace Primaite.Gen.Config",
              "/-- mapping-iteration sites in the loader functions: (function, iterated expression) -/",
              "def sites : List (String × String) := ["]
@@ -359,5 +398,16 @@ def emit() -> str:
     lines += ["]",
               "/-- software constructors: every other statement that mentions a configured option -/",
               "def softwareInitOtherConfigUses : List (String × String) := [" + ", ".join(f"({_lean_str(a)}, {_lean_str(b)})" for a, b in sw_other) + "]",
+              f"def officePcsPerSwitch : Nat := {eni[0]}",
+              "def officeSwitchPorts : List Nat := [" + ", ".join(str(x) for x in sw_ports) + "]",
+              f"def officeMaxInterfaceDefault : Nat := {max_if[0] if max_if else 0}",
+              f"def officeIpLimit : Nat := {ip_limit[0] if len(ip_limit) == 1 else 0}",
+              f"def officeIpRangeTest : String := {_lean_str(ip_test[0] if len(ip_test) == 1 else '?')}",
+              f"def officeStartGuard : String := {_lean_str(start_guard[0] if len(start_guard) == 1 else '?')}",
+              f"def officeNewSwitchTest : String := {_lean_str(new_sw_test[0] if len(new_sw_test) == 1 else '?')}",
+              f"def officeDefaults : String × String := ({_lean_str(defaults.get('include_router', '?'))}, {_lean_str(defaults.get('bandwidth', '?'))})",
+              "def officeTemplates : List String := [" + ", ".join(_lean_str(t) for t in templates) + "]",
+              "def officeConnects : List String := [" + ", ".join(_lean_str(t) for t in connects) + "]",
+              f"def officeSwitchCountFormula : String := {_lean_str(count_formula)}",
               "end Primaite.Gen.Config", ""]
     return "\n".join(lines)
